@@ -12,23 +12,41 @@ from common import sx, q, jq, cname, cnum, ok
 from units import U
 import evalreg
 import props.c01 as c01
+import props.c09 as c09
+import props.c12 as c12
+import props.c16 as c16
 
 ID = 'C11'
 LEVEL = 'proof'
 TIE = {'core.get_n_best, proportional.HighestAverages.evaluate': 'correspondence: implementation on k-fold votes vs the extracted model on the unscaled votes (k up to 10^25+7, 2^60+1)',
        'condorcet.pairwise_wins / CondorcetWinner / Copeland / SmithSet / SchwartzSet': 'models shared with C05/C06 (correspondence there); metamorphic relation on the implementation here',
-       'all other scale-free evaluators (largest remainder, STV with hare / Hagenbach-Bischoff quota, positional, Bucklin, PAV, SPAV, Schulze, minimax, ranked pairs, Kemeny, score family)': 'metamorphic relation on the implementation only'}
+       'threshold.RelativeThreshold / AbsoluteThreshold / AlternativeThresholds, approval.QuotaSelector, core.Conditioned(threshold, HighestAverages)':
+           'correspondence: implementation on profiles with parties exactly on / one vote off the line (magnitudes up to 10^30 * total) vs the extracted models '
+           '(threshold and quota-selector models shared with C16 / C09; Conditioned = the highest-averages model on the parties passing the exact rule) '
+           'and vs the rule n*q > total*p evaluated in rationals in the harness',
+       'approval.ProportionalApproval / SequentialProportionalApproval': 'correspondence: implementation vs the extracted PAV / SPAV models (shared with C12) and vs an exact '
+           'Fraction PAV / SPAV in the harness on constructed exactly tied committees and one-vote leads (3-4 seats, magnitudes up to 10^30): refusal iff exact tie',
+       'all other scale-free evaluators (largest remainder, STV with hare / Hagenbach-Bischoff quota, positional, Bucklin, Schulze, minimax, ranked pairs, Kemeny, score family)': 'metamorphic relation on the implementation only'}
 RULE = ('magnitude-differential: C01 generators (random, constructed quotient ties, zero votes / caps) and get_n_best mappings, implementation run on '
         'k*votes for k in {3, 2^60+1, 10^25+7, 7/3}, model run on votes. scale-metamorphic: every scale-free configuration of harness/evalreg.py '
-        '(47 evaluators over simple / approval / ranked / score / pairwise votes) on random profiles, outcome at k in {2, 3, 7, 10^6, 10^25+7} (score '
-        'family k <= 1000: one list element per voter) equals the outcome at k = 1, refusals included. near-tie: pairs (v, v+1) at v in '
+        '(47 evaluators over simple / approval / ranked / score / pairwise votes) plus 17 threshold-family configurations (RelativeThreshold 1/3, 1/4, 3/100, 1/20 with '
+        'accept_equal both ways, each also as Conditioned(threshold, D\'Hondt), AlternativeThresholds) on random profiles, outcome at k in {2, 3, 7, 10^6, 10^25+7} (score '
+        'family k <= 1000: one list element per voter) equals the outcome at k = 1, refusals included. threshold-line: simple votes with one or two parties exactly on '
+        'a share t of the total (t in 1/3, 3/100, 1/20, 7/100, 1/10, 3/200, 1/5, ... or random p/q, q <= 200), one vote above or one vote below, the offset applied before or '
+        'after a k-fold scaling (k in {1, 2, 3, 7, 10^6, 2^53+1, 10^25+7, 10^30}), counts as int / Fraction / genuinely rational, accept_equal both ways: RelativeThreshold, '
+        'AbsoluteThreshold (threshold = the line), AlternativeThresholds, Conditioned(threshold, highest averages with any of the five divisors, 1..40 seats), QuotaSelector '
+        '(hare / hagenbach_bischoff when t = 1/n) against the extracted models and against the exact rational rule computed in the harness. approval-exact-ties: PAV / SPAV '
+        'profiles (mostly 3-4 seats) with exactly tied optimal committees / round leaders (found among random small profiles, preferring ties between DIFFERENT sums such as '
+        '11/6*2 + ... = 11/6*8 + ..., or constructed by one balancing ballot), the balancing ballot one vote heavier / lighter, each at k = 1 and two magnitudes up to 10^30, '
+        'against the extracted PAV / SPAV models and an exact Fraction PAV / SPAV in the harness: tie refusal iff exact tie, committee and its order otherwise. near-tie: pairs (v, v+1) at v in '
         '{10^3, 2^53, 10^30} and equal totals in different representations (int / Fraction / Decimal) at the cut of plurality, highest averages '
         'and largest remainder. int-vs-fraction: weights K*w+e (K in {2^52+1, 2^52+2, 2^53, 2^53+1, 10^16+1, 10^30+1}, e in -1..2; a third of the cases '
         'with two or three equally weighted ballot types so that majorities hinge on single votes) given once as int and once as Fraction to every '
         'non-score evaluator: identical outcomes. exact-types: no float in PureProportionality seats, split approvals, exact means, Gregory transfer tallies. '
         'non-trivial = result contains a tie, or k > 2^53; distinct by case hash')
-PARTIAL = ['scale invariance of ranked pairs / Kemeny / largest remainder / STV / PAV / SPAV / positional / Bucklin / score rules: '
-           'metamorphic relation evaluated on the implementation per explored case, not proved (Schulze is proved: C11_scale_schulze, C11_scale_full)',
+PARTIAL = ['scale invariance of ranked pairs / Kemeny / PAV / SPAV / positional / Bucklin / score rules: '
+           'metamorphic relation evaluated on the implementation per explored case, not proved (proved: Schulze C11_scale_schulze, largest remainder C11_scale_largest_remainder, STV C11_scale_stv)',
+           'thresholds, quota selector, PAV, SPAV: exactness is decided per explored case against the extracted models and exact harness oracles (no scale theorem for them)',
            'float-freeness of the implementation is by construction a per-case observation (the models compute in Q)']
 TRUSTED = []
 KS = [2, 3, 7, 10 ** 6, 10 ** 25 + 7]
@@ -69,9 +87,42 @@ def gen_gnb(rng, count):
         yield dict(unit='get_n_best', votes=votes, n=rng.randint(1, m + 1), k=jq(rng.choice(BIGK)))
 
 
+# ------------------------------------------------------------------ registry entries used by this property only
+_EXTRA = None
+
+
+def extra_registry():
+    """threshold-family configurations for the scale-metamorphic stream (same schema as harness/evalreg.py; kept local because the
+    other users of the shared registry judge shapes / orders of evaluators that fill seats)"""
+    global _EXTRA
+    if _EXTRA is None:
+        import votelib.evaluate.core as core, votelib.evaluate.threshold as thr, votelib.evaluate.proportional as prop
+        _EXTRA = {}
+
+        def add(name, kind, make, seats):
+            _EXTRA[name] = dict(name=name, vtype='simple', kind=kind, make=make, family='threshold', scale_free=True, seats=seats, max_k=None,
+                                det=True, needs=None, exact=False, min_cands=1)
+        for p_, q_ in ((1, 3), (1, 4), (3, 100), (1, 20)):
+            for ae in (True, False):
+                t = Fraction(p_, q_)
+                tag = '%d_%d_%s' % (p_, q_, 'incl' if ae else 'strict')
+                add('relative_threshold_' + tag, 'sel', (lambda t=t, ae=ae: thr.RelativeThreshold(t, accept_equal=ae)), False)
+                add('conditioned_rel_%s_d_hondt' % tag, 'dist',
+                    (lambda t=t, ae=ae: core.Conditioned(thr.RelativeThreshold(t, accept_equal=ae), prop.HighestAverages('d_hondt'))), True)
+        add('alternative_thresholds_rel', 'sel',
+            lambda: thr.AlternativeThresholds([thr.RelativeThreshold(Fraction(1, 3), accept_equal=False), thr.RelativeThreshold(Fraction(1, 4))]), False)
+    return _EXTRA
+
+
+def reg_all():
+    d = dict(evalreg.registry())
+    d.update(extra_registry())
+    return d
+
+
 # ------------------------------------------------------------------ metamorphic scaling on the implementation
 def scale_metamorphic(ctx, stream, count, rng):
-    reg = evalreg.registry()
+    reg = reg_all()
     names = [n for n, e in reg.items() if e['scale_free']]
     bad = n = 0
     for _ in range(count):
@@ -246,6 +297,380 @@ def near_tie_checks(ctx, stream, count, rng):
     ctx.streams[stream] = dict(cases=n, deviations=bad)
 
 
+# ------------------------------------------------------------------ thresholds: parties on the line, one vote above, one vote below
+THR_POOL = ['1/3', '3/100', '1/20', '7/100', '1/10', '3/200', '1/5', '1/4', '2/5', '1/2', '1/6', '1/100', '1/8', '2/3']
+LINE_K = [1, 1, 2, 3, 7, 10 ** 6, 2 ** 53 + 1, 10 ** 25 + 7, 10 ** 30]
+HB = {1: 'hare', 4: 'hagenbach_bischoff'}
+
+
+def rep_num(x, rep):
+    """exact value -> the Python number handed to the library: 'frac' = always a Fraction, otherwise int when integral"""
+    return Fraction(q(x)) if rep == 'frac' else evalreg.num(x)
+
+
+def line_votes(c):
+    return {cname(p): rep_num(v, c['rep']) for p, v in c['votes']}
+
+
+def passes(v, line, ae):
+    return v > line or (ae and v == line)
+
+
+def sel_exact(sel, exact):
+    """declarative reading of a threshold selector on exact rational totals -> set of passing parties"""
+    if sel[0] == 2:
+        return set().union(*[sel_exact(p, exact) for p in sel[1]])
+    line = c16.qn(sel[1]) * (sum(exact.values()) if sel[0] == 1 else 1)
+    return {p for p, v in exact.items() if passes(v, line, sel[2])}
+
+
+def sel_obj(s, rep):
+    import votelib.evaluate.threshold as th
+    if s[0] == 0:
+        return th.AbsoluteThreshold(rep_num(c16.qn(s[1]), rep), accept_equal=s[2])
+    if s[0] == 1:
+        return th.RelativeThreshold(c16.qn(s[1]), accept_equal=s[2])
+    return th.AlternativeThresholds([sel_obj(p_, rep) for p_ in s[1]])
+
+
+def thr_impl(c):
+    return ok([cnum(x) for x in sel_obj(c['sel'], c['rep']).evaluate(line_votes(c))])
+
+
+def thr_spec(c, io, mo):
+    """the exact rule n_i * q > total * p (>= when equal shares are accepted), computed here in rationals"""
+    exact = {p: q(v) for p, v in c['votes']}
+    want = sel_exact(c['sel'], exact)
+    v = common.parse_sx(io)
+    if v[0] != 0:
+        return 'threshold selector refused exact rational votes: %s' % c.get('_exc')
+    got = v[1]
+    if set(got) != want or len(got) != len(want):
+        return ('selector %s returns %s; in exact arithmetic the parties passing are %s (totals %s, sum %s)'
+                % (c['sel'], sorted(got), sorted(want), {p: str(x) for p, x in sorted(exact.items())}, sum(exact.values())))
+    if c['sel'][0] != 2 and any(exact[a] < exact[b] for a, b in zip(got, got[1:])):
+        return 'passing parties are not listed by decreasing exact totals: %s' % got
+    return None
+
+
+def cond_passing(c):
+    exact = {p: q(v) for p, v in c['votes']}
+    keep = sel_exact(c['sel'], exact)
+    return [[p, v] for p, v in c['votes'] if p in keep]
+
+
+def cond_model_line(c):
+    """Conditioned(threshold, highest averages) = the highest-averages MODEL on the parties that pass the exact threshold rule"""
+    return c01.model_line(dict(c, votes=cond_passing(c), prev=[], caps=[]))
+
+
+def cond_spec(c, io, mo):
+    if c01.canon(c, io) != c01.canon(c, mo):
+        return ('Conditioned(%s, highest averages %s) distributes %s; the parties passing the exact threshold rule are %s and highest averages over them gives %s'
+                % (c['sel'], c['div'], io, sorted(p for p, _ in cond_passing(c)), mo))
+    return None
+
+
+def cond_impl(c):
+    import votelib.evaluate.core as core, votelib.evaluate.proportional as prop
+    ev = core.Conditioned(sel_obj(c['sel'], c['rep']), prop.HighestAverages(c01.divisor_obj(c['div'])))
+    return ok(c01.enc_dist(ev.evaluate(line_votes(c), c['n'])))
+
+
+def qsel_impl(c):
+    import votelib.evaluate.approval as ap
+    ev = ap.QuotaSelector(c09.QN[c['quota']], accept_equal=c['ae'], on_more_over_quota='select' if c['select'] else 'error')
+    return ok(c09.enc_sel(ev.evaluate(line_votes(c), c['n'])))
+
+
+def qsel_spec(c, io, mo):
+    """who is over the exact quota total/n (hare) resp. total/(n+1) (hagenbach_bischoff): every plain winner must be, and when
+    at most n parties are, exactly those are returned"""
+    exact = {p: q(v) for p, v in c['votes']}
+    line = sum(exact.values()) / (c['n'] + (1 if c['quota'] == 4 else 0))
+    over = {p for p, v in exact.items() if passes(v, line, c['ae'])}
+    v = common.parse_sx(io)
+    if v[0] != 0:
+        return None if v[1] == common.E['VSE'] and len(over) > c['n'] and not c['select'] else 'quota selector refused: %s' % c.get('_exc')
+    flat = [x for r in v[1] for x in (r if isinstance(r, list) else [r])]
+    if not set(flat) <= over or (len(over) <= c['n'] and set(flat) != over):
+        return 'quota selector returns %s; exactly over the quota %s are %s' % (v[1], line, sorted(over))
+    return None
+
+
+def gen_line_profiles(rng, count):
+    """simple-vote profiles with one or two parties exactly on a rational share t of the total, or one vote off it (the offset is applied
+    either before the k-fold scaling - plain scale metamorphism - or after it: one vote at magnitude k*total), total kept at k*T0"""
+    for _ in range(count):
+        if rng.random() < 0.75:
+            t = Fraction(rng.choice(THR_POOL))
+        else:
+            d = rng.randint(2, 200)
+            t = Fraction(rng.randint(1, max(1, d // 2)), d)
+        m = rng.randint(2, 6)
+        T0 = t.denominator * rng.randint(1, 60) * rng.choice([1, 1, 10, 1000, 10 ** 5])
+        line = t * T0
+        assert line.denominator == 1
+        line = int(line)
+        k = rng.choice(LINE_K)
+        near = rng.random() < 0.5
+        nline = 2 if (m >= 3 and 2 * line < T0 and rng.random() < 0.3) else 1
+        rest = T0 - nline * line
+        nfree = m - nline
+        cuts = sorted(rng.randint(0, rest) for _ in range(nfree - 1))
+        free = [b - a for a, b in zip([0] + cuts, cuts + [rest])]
+        if rng.random() < 0.5:
+            free.sort()         # the filler (last) is the largest
+        deltas = [rng.choice([0, 0, -1, 1]) for _ in range(nline)]
+        filler = free[-1] * k if near else free[-1]
+        if filler - sum(deltas) < 0:
+            deltas = [0] * nline
+        base = [line] * nline + free
+        dl = deltas + [0] * (nfree - 1) + [-sum(deltas)]
+        vals = [(b * k + d_) if near else (b + d_) * k for b, d_ in zip(base, dl)]
+        assert sum(vals) == T0 * k and min(vals) >= 0
+        rep = rng.choice(['int', 'int', 'frac', 'rational'])
+        ratio = Fraction(1, rng.choice([2, 3, 7])) if rep == 'rational' else 1
+        ids = list(range(1, m + 1))
+        rng.shuffle(ids)
+        votes = [[i, jq(v * ratio)] for i, v in zip(ids, vals)]
+        rng.shuffle(votes)
+        yield dict(t=t, ae=rng.random() < 0.5, votes=votes, rep=rep, k=str(k), near=near, on_line=jq(line * k * ratio), deltas=deltas,
+                   n=rng.randint(1, 40))
+
+
+def big_or_on_line(c):
+    return int(c['k']) > 2 ** 53 or 0 in c.get('deltas', [])
+
+
+def threshold_line(ctx, count, rng):
+    thr_cases, cond_cases, qs_cases = [], [], []
+    for g in gen_line_profiles(rng, count):
+        t, ae = g.pop('t'), g.pop('ae')
+        rel = [1, 'f:%s' % t, ae]
+        absl = [0, 'f:%s' % q(g['on_line']), rng.choice([ae, not ae])]
+        thr_cases.append(dict(g, unit='threshold', sel=rel))
+        r = rng.random()
+        if r < 0.3:
+            thr_cases.append(dict(g, unit='threshold', sel=absl))
+        elif r < 0.5:
+            thr_cases.append(dict(g, unit='threshold', sel=[2, [absl, [1, 'f:%s' % t, not ae]]]))
+        cond = dict(g, unit='conditioned_ha', sel=rng.choice([rel, rel, rel, absl]), div=[rng.choice([1, 1, 2, 3, 4, 5])])
+        if cond_passing(cond):        # nobody passes: the inner evaluator gets no votes at all (not a question of arithmetic)
+            cond_cases.append(cond)
+        if t.numerator == 1 and t.denominator <= 12:
+            for qn_ in (1, 4):
+                n = t.denominator - (1 if qn_ == 4 else 0)
+                if n >= 1:
+                    qs_cases.append(dict(g, unit='quota_selector', quota=qn_, ae=ae, select=rng.random() < 0.7, n=n))
+    for cs in (thr_cases, cond_cases, qs_cases):
+        for c in cs:
+            ctx.dist['line:k>2^53' if int(c['k']) > 2 ** 53 else 'line:k<=2^53'] += 1
+            ctx.dist['line:rep=' + c['rep']] += 1
+    ctx.differential('threshold-line', thr_cases, c16.thr_model_line, thr_impl, canon=c16.thr_canon, nontrivial=big_or_on_line, spec=thr_spec)
+    ctx.differential('threshold-conditioned', cond_cases, cond_model_line, cond_impl, canon=c01.canon, nontrivial=big_or_on_line, spec=cond_spec)
+    ctx.differential('threshold-quota-selector', qs_cases, c09.qs_model_line, qsel_impl, canon=c09.canon, nontrivial=big_or_on_line, spec=qsel_spec)
+
+
+# ------------------------------------------------------------------ PAV / SPAV: exactly tied committees and one-vote leads
+def harmonic(n):
+    return [sum(Fraction(1, j + 1) for j in range(i)) for i in range(n + 1)]
+
+
+def pav_scores(prof, n):
+    cands = sorted({x for b, _ in prof for x in b})
+    h = harmonic(n)
+    return {com: sum(h[len(set(b) & set(com))] * q(w) for b, w in prof) for com in itertools.combinations(cands, n)}
+
+
+def spav_exact(prof, n, trace=None):
+    """exact sequential PAV: -> list of elected, or None when a round's leaders tie exactly"""
+    cands = sorted({x for b, _ in prof for x in b})
+    elected = []
+    while len(elected) < n:
+        sc = {x: sum(Fraction(q(w), 1 + len(set(b) & set(elected))) for b, w in prof if x in b) for x in cands if x not in elected}
+        if not sc:
+            return elected
+        top = max(sc.values())
+        lead = [x for x, v in sc.items() if v == top]
+        if trace is not None:
+            trace.append((list(elected), sc))
+        if len(lead) > 1:
+            return None
+        elected.append(lead[0])
+    return elected
+
+
+def ap_votes(c):
+    return {frozenset(cname(x) for x in b): rep_num(w, c['rep']) for b, w in c['votes']}
+
+
+def ap_impl(c):
+    import votelib.evaluate.approval as ap
+    ev = ap.ProportionalApproval() if c['unit'] == 'pav' else ap.SequentialProportionalApproval()
+    return ok(c12.enc_sel(ev.evaluate(ap_votes(c), c['n'])))
+
+
+def ap_spec(c, io, mo):
+    """exact Fraction PAV / SPAV computed here: the library must refuse (tie) iff the optimum / a round's leader is exactly tied"""
+    v = common.parse_sx(io)
+    if v[0] != 0 and v[1] != common.E['NIE']:
+        return 'refused exact rational approval votes: %s' % c.get('_exc')
+    prof, n = c['votes'], c['n']
+    if c['unit'] == 'pav':
+        sc = pav_scores(prof, n)
+        top = max(sc.values())
+        best = [com for com, s_ in sc.items() if s_ == top]
+        if len(best) > 1:
+            if v[0] == 0:
+                return 'committees %s have exactly equal satisfaction %s, yet %s is returned instead of the tie refusal' % (best[:3], top, v[1])
+            return None
+        if v[0] != 0:
+            second = max(s_ for s_ in sc.values() if s_ != top) if len(sc) > 1 else None
+            return 'committee %s is the unique optimum (satisfaction %s, runner-up %s), yet a tie is reported' % (list(best[0]), top, second)
+        flat = [x for r in v[1] for x in (r if isinstance(r, list) else [r])]
+        if sorted(flat) != list(best[0]):
+            return 'returned %s; the unique exact optimum is %s' % (v[1], list(best[0]))
+        h = harmonic(n)
+        without = {x: sum(h[len((set(b) & set(best[0])) - {x})] * q(w) for b, w in prof) for x in best[0]}
+        if all(not isinstance(r, list) for r in v[1]) and any(without[a] > without[b] for a, b in zip(v[1], v[1][1:])):
+            return 'committee members not ordered by decreasing exact satisfaction drop: %s' % v[1]
+        return None
+    want = spav_exact(prof, n)
+    if want is None:
+        return None if v[0] != 0 else 'a round of sequential PAV is exactly tied, yet %s is returned instead of the tie refusal' % v[1]
+    if v[0] != 0:
+        return 'no round of sequential PAV is tied in exact arithmetic (%s elected), yet a tie is reported' % want
+    if v[1] != want:
+        return 'returned %s; exact sequential PAV elects %s' % (v[1], want)
+    return None
+
+
+def merge_ballot(prof, ballot, w):
+    ballot = sorted(ballot)
+    for e in prof:
+        if e[0] == ballot:
+            e[1] += w
+            return e
+    prof.append([ballot, w])
+    return prof[-1]
+
+
+def random_approval(rng, m):
+    ids = list(range(1, m + 1))
+    prof = []
+    for _b in range(rng.randint(2, 7)):
+        merge_ballot(prof, rng.sample(ids, rng.randint(1, min(m, 4))), rng.randint(1, 9))
+    missing = [x for x in ids if not any(x in b for b, _ in prof)]
+    if missing:
+        merge_ballot(prof, missing, rng.randint(1, 9))      # every candidate is approved by somebody: more candidates than seats
+    return prof
+
+
+def close_pav_gap(rng, prof, n):
+    """one balancing ballot with j approved members of a runner-up committee c2 and i < j of the best committee c1, weighted
+    gap / (h[j] - h[i]).  Weights are NOT pre-multiplied by lcm(1..n) and, of several shapes, one with an integral weight is preferred:
+    the tied satisfactions then keep different non-integral summands (11/6 * 2 + ... = 11/6 * 8 + ...)"""
+    sc = pav_scores(prof, n)
+    order = sorted(sc, key=lambda com: (-sc[com], rng.random()))
+    c1, h, options = order[0], harmonic(n), []
+    for _try in range(8):
+        c2 = rng.choice(order[1:min(len(order), 5)])
+        only2, only1 = sorted(set(c2) - set(c1)), sorted(set(c1) - set(c2))
+        common_ = sorted(set(c1) & set(c2))
+        extra = rng.sample(common_, rng.randint(0, len(common_))) if rng.random() < 0.5 else []
+        take2 = rng.sample(only2, rng.randint(1, len(only2)))
+        take1 = rng.sample(only1, rng.randint(0, min(len(only1), len(take2) - 1)))
+        w = (sc[c1] - sc[c2]) / (h[len(extra) + len(take2)] - h[len(extra) + len(take1)])
+        if w > 0:
+            options.append((w.denominator, rng.random(), extra + take2 + take1, w))
+    if not options:
+        return prof, None
+    _d, _r, ballot, w = min(options)
+    prof = [[b, x * w.denominator] for b, x in prof]
+    return prof, merge_ballot(prof, ballot, int(w * w.denominator))
+
+
+def close_spav_gap(rng, prof, n):
+    """balancing ballot {elected so far} + {runner-up of a round}, weight = gap * (number elected + 1)"""
+    tr = []
+    spav_exact(prof, n, tr)
+    rounds = [(el, s_) for el, s_ in tr if len(s_) >= 2]
+    if not rounds:
+        return prof, None
+    el, s_ = rng.choice(rounds[-2:])
+    lead = sorted(s_, key=lambda x: (-s_[x], rng.random()))
+    w = (s_[lead[0]] - s_[lead[1]]) * (len(el) + 1)
+    if w <= 0:
+        return prof, None
+    prof = [[bb, x * w.denominator] for bb, x in prof]
+    return prof, merge_ballot(prof, el + [lead[1]], int(w * w.denominator))
+
+
+def exactly_tied(unit, prof, n):
+    if unit == 'spav':
+        return spav_exact(prof, n) is None
+    sc = pav_scores(prof, n)
+    top = max(sc.values())
+    return sum(1 for v in sc.values() if v == top) > 1
+
+
+def tie_summands_differ(prof, n):
+    """PAV: at least two optimal committees, and their (equal) satisfactions are sums of different non-integral terms h[j] * w"""
+    sc = pav_scores(prof, n)
+    top = max(sc.values())
+    best = [com for com, v in sc.items() if v == top]
+    h = harmonic(n)
+    sigs = {tuple(sorted(t for t in (h[len(set(b) & set(com))] * q(w) for b, w in prof) if t.denominator != 1)) for com in best}
+    return len(best) > 1 and len(sigs) > 1
+
+
+def gen_tied_committees(rng, count):
+    """approval profiles (3 or 4 seats mostly) with exactly tied optimal committees (PAV) / round leaders (SPAV): 'natural' = the first
+    of up to 60 random small-weight profiles that is exactly tied (PAV: mostly with tied satisfactions that are sums of DIFFERENT non-integral
+    terms, 11/6 * 2 + ... = 11/6 * 8 + ...); 'tie' = the gap closed exactly by one balancing ballot; 'lead' = that
+    ballot one vote heavier or lighter; 'plain' = random profile.  Every profile at k = 1 and at two other magnitudes up to 10^30
+    (the one-vote change applied after the scaling), weights as int, Fraction or genuinely rational."""
+    for _ in range(count):
+        m = rng.randint(4, 6)
+        n = rng.choice([2, 3, 3, 3, 4]) if m > 4 else rng.choice([2, 3, 3])
+        unit = rng.choice(['pav', 'pav', 'spav'])
+        mode = rng.choice(['tie', 'tie', 'lead', 'lead', 'natural', 'natural', 'plain'])
+        prof, bal = random_approval(rng, m), None
+        if mode == 'natural':
+            want = tie_summands_differ if (unit == 'pav' and n >= 3 and rng.random() < 0.7) else (lambda p_, n_: exactly_tied(unit, p_, n_))
+            for _try in range(60):
+                if want(prof, n):
+                    break
+                prof = random_approval(rng, m)
+        elif mode in ('tie', 'lead'):
+            prof, bal = (close_pav_gap if unit == 'pav' else close_spav_gap)(rng, prof, n)
+            if bal is None:
+                mode = 'plain'
+        rep = rng.choice(['int', 'int', 'int', 'frac', 'rational'])
+        ratio = Fraction(1, rng.choice([2, 3, 7])) if rep == 'rational' else 1
+        rng.shuffle(prof)
+        for k in [1] + rng.sample(LINE_K[2:], 2):
+            e = rng.choice([1, 1, -1]) if mode == 'lead' else 0
+            votes = [[b, jq((x * k + (e if ent is bal and x * k + e > 0 else 0)) * ratio)] for ent in prof for b, x in [ent]]
+            yield dict(unit=unit, votes=votes, n=n, rep=rep, k=str(k), mode=mode)
+
+
+def tie_or_big(c):
+    return c['mode'] != 'plain' or int(c['k']) > 2 ** 53
+
+
+def approval_ties(ctx, count, rng):
+    cases = list(gen_tied_committees(rng, count))
+    for c in cases:
+        ctx.dist['approval:%s/%s' % (c['unit'], c['mode'])] += 1
+        ctx.dist['approval:seats=%d' % c['n']] += 1
+        ctx.dist['approval:exactly-tied' if exactly_tied(c['unit'], c['votes'], c['n']) else 'approval:unique'] += 1
+        if c['unit'] == 'pav' and tie_summands_differ(c['votes'], c['n']):
+            ctx.dist['approval:pav-tie-of-different-sums'] += 1
+    ctx.differential('approval-exact-ties', cases, c12.model_line, ap_impl, canon=c12.canon, nontrivial=tie_or_big, spec=ap_spec, limit=10)
+
+
 # ------------------------------------------------------------------ exact types
 def find_float(x, path='result'):
     if isinstance(x, float):
@@ -350,13 +775,21 @@ def replay_case(ctx, c, stream):
             ctx.checker_false += 1
             ctx.report(stream, c, str(a[1:]), str(b[1:]), '%s: integer and Fraction vote counts give different outcomes' % c['evaluator'])
     elif c.get('kind') == 'scale':
-        e = evalreg.registry()[c['evaluator']]
+        e = reg_all()[c['evaluator']]
         base = evalreg.outcome(e, c['profile'], c['n'])
         sc = evalreg.outcome(e, c['profile'], c['n'], scale=q(c['k']))
         ctx.evaluations += 1
         if (base[0], base[1]) != (sc[0], sc[1]):
             ctx.checker_false += 1
             ctx.report(stream, c, str(sc[1:]), str(base[1:]), '%s: outcome changes under %s-fold scaling' % (c['evaluator'], c['k']))
+    elif c.get('unit') == 'threshold':
+        ctx.differential(stream, [c], c16.thr_model_line, thr_impl, canon=c16.thr_canon, nontrivial=lambda cc: True, spec=thr_spec)
+    elif c.get('unit') == 'conditioned_ha':
+        ctx.differential(stream, [c], cond_model_line, cond_impl, canon=c01.canon, nontrivial=lambda cc: True, spec=cond_spec)
+    elif c.get('unit') == 'quota_selector':
+        ctx.differential(stream, [c], c09.qs_model_line, qsel_impl, canon=c09.canon, nontrivial=lambda cc: True, spec=qsel_spec)
+    elif c.get('unit') in ('pav', 'spav'):
+        ctx.differential(stream, [c], c12.model_line, ap_impl, canon=c12.canon, nontrivial=lambda cc: True, spec=ap_spec, limit=10)
     elif c.get('unit') == 'highest_averages':
         ctx.differential(stream, [c], c01.model_line, lambda cc: c01.impl(scaled_ha(cc)), canon=c01.canon, nontrivial=lambda cc: True)
     elif c.get('unit') == 'get_n_best':
@@ -365,8 +798,11 @@ def replay_case(ctx, c, stream):
 
 def explore(ctx, widen=1):
     rng = ctx.rng
+    ncorp = 0
     for c in corpus():
         replay_case(ctx, c, 'corpus')
+        ncorp += 1
+    ctx.streams['corpus'] = dict(cases=ncorp, deviations=sum(1 for v in ctx.violations if v['stream'] == 'corpus'))
 
     def with_k(gen):
         for c in gen:
@@ -380,6 +816,8 @@ def explore(ctx, widen=1):
     scale_metamorphic(ctx, 'scale-metamorphic', ctx.n(2500, 40000) * widen, rng)
     type_metamorphic(ctx, 'int-vs-fraction', ctx.n(2500, 40000) * widen, rng)
     near_tie_checks(ctx, 'near-tie', ctx.n(150, 2000), rng)
+    threshold_line(ctx, ctx.n(900, 12000) * widen, rng)
+    approval_ties(ctx, ctx.n(500, 6000) * widen, rng)
     exact_type_checks(ctx, 'exact-types', ctx.n(300, 4000), rng)
     score_magnitude_check(ctx, 'score-magnitude')
     if ctx.tier == 'thorough':
